@@ -451,8 +451,8 @@ DenUnionByType(G, k, p, slow) ==
     IN  IF Cardinality(rn) >= 2 THEN RErr                      \* several equally suitable branches
         ELSE IF cand = {} THEN RErr
         ELSE IF Cardinality(nat) = 1 /\ Cardinality(rn) = 1 THEN pick(CHOOSE x \in rn : TRUE)
-        ELSE IF rn = {} /\ Cardinality(cand) = 1 /\ ~res[CHOOSE x \in cand : TRUE].any
-             THEN pick(CHOOSE x \in cand : TRUE)               \* the only branch that can hold the value at all
+        ELSE IF nat = {} /\ Cardinality(cand) = 1 /\ ~res[CHOOSE x \in cand : TRUE].any
+             THEN pick(CHOOSE x \in cand : TRUE)               \* no natural branch, and only one branch can hold the value at all
         ELSE IF \E b \in cand : res[b].any THEN RAny
         ELSE [m |-> "free", any |-> FALSE, vs |-> UNION {WrapBranch(b, res[b]).vs : b \in cand}]
 
